@@ -649,7 +649,12 @@ func caseDial(cfg *RunCfg, st *Stats, w *CaseWriter, idx int) string {
 	pre := &verdictPlugin{name: "pre"}
 	post := &verdictPlugin{name: "post"}
 	tail := &tailPlugin{}
-	cli := erpc.NewPeer(erpc.PeerConfig{}, pre, ol, post, tail)
+	redial := r.Intn(3) == 0
+	ccfg := erpc.PeerConfig{}
+	if redial {
+		ccfg = erpc.PeerConfig{RedialTimes: 2, RedialInterval: 5 * time.Millisecond}
+	}
+	cli := erpc.NewPeer(ccfg, pre, ol, post, tail)
 	srv := erpc.NewPeer(erpc.PeerConfig{})
 	srv.RouteCall(new(H))
 	lis, err := Listen(srv, "")
@@ -692,6 +697,24 @@ func caseDial(cfg *RunCfg, st *Stats, w *CaseWriter, idx int) string {
 			}
 			evs = append(evs, VL(VS("dial"), VBool(e), VBool(l)))
 			human = append(human, fmt.Sprintf("dial(earlier=%v,later=%v)->%v", e, l, stat.OK()))
+		case x < 8 && redial:
+			// the server cuts every connection: each live session redials (PostDial with
+			// isRedial = true) and keeps its slot
+			lis.KillConns()
+			ok := WaitUntil(quiesce, func() bool {
+				for _, s := range live {
+					var rr string
+					if !s.Call("/h/b", "x", &rr).Status().OK() {
+						return false
+					}
+				}
+				return true
+			})
+			if !ok {
+				fail("redial-lost", "a live session did not come back after the server cut the connection")
+			}
+			evs = append(evs, VS("redial"))
+			human = append(human, "redial")
 		default:
 			if len(live) > 0 {
 				s := live[0]
